@@ -5,5 +5,6 @@ CONSTANTS
   MaxMsgs = 2
   PlFrom = 1
   PlTo = 100
+  Lims = {0, 1, 2, 3}
 INVARIANTS Thm_BatchingIndependent Thm_LimitMeaning Thm_SeriesIdentity
 CHECK_DEADLOCK FALSE
